@@ -329,8 +329,8 @@ var diagPrograms = []string{
 }
 
 // H_diagnostics_repeat: a program run twice (and after another program) on fresh VMs of one
-// process writes the same diagnostics each time: entry by entry the captured writes of the second
-// run equal those of the first.
+// process writes the same diagnostics each time: the text captured during the second run equals
+// that of the first.
 func H_diagnostics_repeat() {
 	pa, pb := symx.Choose("A", len(diagPrograms)), symx.Choose("B", len(diagPrograms))
 	defer symx.VCleanup()
@@ -339,28 +339,18 @@ func H_diagnostics_repeat() {
 	symx.VFile(root+"/a.php", diagPrograms[pa])
 	symx.VFile(root+"/b.php", diagPrograms[pb])
 	data.WriteOutput = func(string) { data.MarkUserOutput() }
-	run := func(file string) []string {
-		from := symx.PrintedCount()
+	run := func(file string) string {
+		from := len(symx.Printed())
 		p := parser.NewParser()
 		vm := runtime.NewVM(p)
 		// the default handler prints the diagnostic and exits the process: print it the same way, stay alive
 		vm.SetThrowControl(func(acl data.Control) { p.ShowControl(acl) })
 		vm.LoadAndRun(file)
-		var out []string
-		for k := from; k < symx.PrintedCount(); k++ {
-			out = append(out, symx.PrintedAt(k))
-		}
-		return out
+		return symx.Printed()[from:]
 	}
 	first := run(root + "/b.php")
 	run(root + "/a.php")
 	second := run(root + "/b.php")
-	symx.Assert(len(first) == len(second), "the same program writes the same number of diagnostics when it runs again on a fresh VM")
-	if len(first) != len(second) {
-		return
-	}
-	for k := range first {
-		symx.Assert(first[k] == second[k], "the same program writes the same diagnostics when it runs again on a fresh VM")
-	}
+	symx.Assert(first == second, "the same program writes the same diagnostics when it runs again on a fresh VM")
 	symx.Reach("end")
 }
